@@ -31,6 +31,7 @@ FILE_DEPS = {
     "enc/mod.rs": ["enc/lzma_writer.rs"],
     "enc/lzma_writer.rs": ["enc/lzma2_writer.rs"],
     "enc/lzma2_writer.rs": ["enc/range_enc.rs"],
+    "enc/lzma2_writer_mt.rs": ["enc/lzma2_writer.rs"],
     "enc/range_enc.rs": ["range_dec.rs"],
     "enc/encoder.rs": ["enc/range_enc.rs", "range_dec.rs", "decoder.rs", "state.rs"],
     "lzip/reader.rs": ["lzip.rs", "lzma_reader.rs", "range_dec.rs"],
@@ -65,7 +66,7 @@ def by_id():
 
 # ------------------------------------------------------------------------------------------- C02
 U(id="C02.mbi", props=["C02", "C03", "C06"], file="xz.rs",
-  harnesses=["c02_mbi_roundtrip"] + ["c06_mbi_parse_total_%d" % n for n in range(11)] + ["c02_mbi_class_%d" % k for k in range(1, 10)], canaries=["c02_mbi_canary"],
+  harnesses=["c02_mbi_roundtrip"] + ["c06_mbi_parse_total_%d" % n for n in range(11)] + ["c02_mbi_class_%d" % k for k in range(1, 10)] + ["c06_mbi_contract_short"], canaries=["c02_mbi_canary"],
   functions=[("src/xz.rs", "encode_multibyte_integer"), ("src/xz.rs", "parse_multibyte_integer"),
              ("src/xz.rs", "parse_multibyte_integer_from_reader"), ("src/xz.rs", "count_multibyte_integer_size"),
              ("src/xz.rs", "count_multibyte_integer_size_for_value")],
@@ -377,6 +378,44 @@ U(id="C13.gate", props=["C13", "C01", "C17"], file="lz/lz_encoder.rs", harnesses
   kind="bounded", bound="dictionary 4096 (sizes are linear in dict), extra sizes <= 4096, every nice_len, both match finders",
   functions=[("src/lz/lz_encoder.rs", "new", "LZEncoder"), ("src/lz/lz_encoder.rs", "new_hc4"), ("src/lz/lz_encoder.rs", "new_bt4")],
   contract="keep_size_before = extra_before + dict, keep_size_after = extra_after + match_len_max (look-ahead gate that makes decisions independent of write partition), buffer = spec size, empty window, match arrays nice_len-1")
+
+MTSTUB = ["spawn_worker_thread -> ghost counter (thread::spawn is outside Kani)", "alloc::fmt::format -> empty String"]
+PARK(id="C08.order.w", props=["C08", "C13"], file="enc/lzma2_writer_mt.rs", harnesses=["c08_order_w_lzma2_finishing_n2_realmap"], stubs=[], assumptions=SCHED, contract_stubs=MTSTUB,
+  kind="bounded", bound="3 outstanding results, every arrival permutation",
+  functions=[("src/enc/lzma2_writer_mt.rs", "get_next_compressed_chunk")],
+  contract="results arriving in any order through the real mpsc channel are handed out in sequence order, each exactly once; end reported only after last_sequence_id was returned")
+
+PARK(id="C08.worker.w", props=["C08", "C13"], file="enc/lzma2_writer_mt.rs", extra_files=["enc/lzma2_writer.rs"], harnesses=["c08_worker_w_lzma2_two_units"], stubs=[], assumptions=SCHED,
+  contract_stubs=["LZMA2Writer::{new,write_chunk,start_independent_chunk} -> chunk-level contract (first chunk of a writer resets the dictionary; proved for the real writer in C01.l2.w)", "LZEncoder::fill_window accepts all bytes", "mpsc channel -> chan_any", "Condvar::notify_* no-op"],
+  kind="bounded", bound="two queued units of 1..3 bytes each, any sequence numbers",
+  functions=[("src/enc/lzma2_writer_mt.rs", "worker_thread_logic")],
+  contract="per stolen unit exactly one result with the same sequence number; its bytes encode exactly that unit and start with a dictionary-reset chunk (self-contained, no state carried between units, preset dictionary dropped); busy counter back to 0; no error")
+
+U(id="C06.xz.bhdr", props=["C06", "C04", "C03"], file="xz/reader.rs", extra_files=["xz.rs"],
+  harnesses=["c06_xz_block_header_total_s1"], thorough_harnesses=["c06_xz_block_header_total_s2", "c06_xz_block_header_total_s3", "c06_xz_block_header_total_s5"], timeout_quick=700,
+  kind="bounded", bound="declared header sizes 8, 12, 16 (24 in thorough) bytes, every content",
+  contract_stubs=["parse_multibyte_integer / count_multibyte_integer_size -> contract (exact for 1..3-byte encodings, over-approximated beyond; met by the real functions: C02.mbi c06_mbi_contract_short)"],
+  functions=[("src/xz/reader.rs", "parse", "BlockHeader")],
+  contract="forall header bytes: returns without panic; Ok => declared size consumed, stored CRC = crc_fn(header), reserved flag bits zero, last filter LZMA2 and none after it, delta distance in 1..=256, dictionary >= 4096")
+
+U(id="C01.lze.pending", props=["C01", "C07", "C13"], file="lz/lz_encoder.rs", harnesses=["c01_lze_pending_flush", "c01_lze_fill_window_pending"], stubs=[],
+  contract_stubs=["dyn MatchFind -> MfGhost: skip(n) = n x move_pos(4,4), inserts a position iff look-ahead is available; asserts positions are inserted in order, once"],
+  kind="bounded", bound="window buffer of 32 bytes, pending count <= 6; every read/write/limit position",
+  functions=[("src/lz/lz_encoder.rs", "process_pending_bytes"), ("src/lz/lz_encoder.rs", "set_flushing", "LZEncoderData"), ("src/lz/lz_encoder.rs", "set_finishing", "LZEncoderData"),
+             ("src/lz/lz_encoder.rs", "fill_window", "LZEncoderData"), ("src/lz/lz_encoder.rs", "move_pos", "LZEncoderData")],
+  contract="from every state in which the match finder is in step with the window (finder position = read_pos + 1 - pending): flush / finish / fill re-offer the pending positions exactly once, restore read_pos, leave pending exactly the positions still short of look-ahead, and the finder is in step again")
+
+DROPSTUB = ["spawn_worker_thread -> ghost counter (thread::spawn is outside Kani)", "Condvar::notify_* no-op (wake-up itself: C10.lock)",
+            "Arc::drop_slow -> leak the payload (std's thread Packet destructor uses the catch_unwind intrinsic, which Kani 0.68 cannot compile)"]
+_ND = "new: worker limit = clamp(n,1,256) for every u32 n, at most one worker started, unit size = max(configured, dictionary); drop from any state of the shutdown flag: flag set, queue closed (steal returns None without waiting), no blocking call"
+U(id="C10.newdrop.w2", props=["C10", "C18", "C19"], file="enc/lzma2_writer_mt.rs", harnesses=["c10_new_drop_w_lzma2_small", "c10_new_drop_w_lzma2_large", "c19_new_w_lzma2_no_chunk_size"], assumptions=SCHED, contract_stubs=DROPSTUB,
+  functions=[("src/enc/lzma2_writer_mt.rs", "new", "LZMA2WriterMT"), ("src/enc/lzma2_writer_mt.rs", "drop", "Drop for LZMA2WriterMT")], contract=_ND)
+U(id="C10.newdrop.r2", props=["C10"], file="lzma2_reader_mt.rs", harnesses=["c10_new_drop_r_lzma2"], stubs=[], assumptions=SCHED, contract_stubs=DROPSTUB,
+  functions=[("src/lzma2_reader_mt.rs", "new", "LZMA2ReaderMT"), ("src/lzma2_reader_mt.rs", "drop", "Drop for LZMA2ReaderMT")], contract=_ND)
+U(id="C10.newdrop.wz", props=["C10", "C18"], file="lzip/writer_mt.rs", harnesses=["c10_new_drop_w_lzip_small", "c10_new_drop_w_lzip_large"], assumptions=SCHED, contract_stubs=DROPSTUB,
+  functions=[("src/lzip/writer_mt.rs", "new", "LZIPWriterMT"), ("src/lzip/writer_mt.rs", "drop", "Drop for LZIPWriterMT")], contract=_ND)
+U(id="C10.newdrop.rz", props=["C10"], file="lzip/reader_mt.rs", harnesses=["c10_new_drop_r_lzip"], stubs=[], assumptions=SCHED, contract_stubs=DROPSTUB + ["LZIPReaderMT::scan_members -> Ok (its body: C08.scan)"],
+  functions=[("src/lzip/reader_mt.rs", "new", "LZIPReaderMT"), ("src/lzip/reader_mt.rs", "drop", "Drop for LZIPReaderMT")], contract=_ND)
 
 # ---------------------------------------------------------------------------------------- quick-tier budget
 # Harnesses kept in the quick tier per unit; every other harness of the unit runs in the thorough tier only.
